@@ -106,6 +106,18 @@ def prefix_enc(addr, plen, width):
     return SP.sl(SP.be(addr, width), 0, octets_of(plen))
 
 
+def flow_dotted(addr_octs, plen):
+    """the flowspec decoder's own text for a prefix: four decimal numbers, the octets beyond ceil(len/8) are 0"""
+    n = octets_of(plen)
+    parts = []
+    for k in range(4):
+        if k:
+            parts.append('.')
+        o = z3.simplify(addr_octs[k] if k < n else z3.IntVal(0))
+        parts.append(str(o.as_long()) if z3.is_int_value(o) else STR.dec(SNum(o)))
+    return STR.concat(parts + ['/', str(plen)])
+
+
 def text6(addr, plen):
     t = z3.simplify(to_term(addr))
     return STR.concat([STR.ip6(t.as_long() if z3.is_int_value(t) else addr), '/', str(plen)])
@@ -347,7 +359,7 @@ def units(props):
     # (the per-family NLRI codecs above carry the quantification over prefix lengths, labels, RD types)
     MPR = AT + 'mpreachnlri.MpReachNLRI.'
     MPU = AT + 'mpunreachnlri.MpUnReachNLRI.'
-    FAMILIES = ['v6', 'v6-linklocal', 'vpnv4', 'vpnv6', 'lu4', 'lu6']
+    FAMILIES = ['v6', 'v6-linklocal', 'vpnv4', 'vpnv6', 'lu4', 'lu6', 'flow4', 'evpn']
 
     def addr_full(it, tag, width):
         octs = []
@@ -380,6 +392,19 @@ def units(props):
                      nh_bin=SP.cat(b'\x00' * 8, octets_bytes(nh.octs, w)),
                      nlri=[{'label': list(lb), 'rd': rd[0], 'prefix': txt(a, l)}],
                      nlri_bin=SP.cat(SP.be(88 + l, 1), label_stack_enc(lb), rd[1], prefix_enc(a, l, w)))
+        elif fam == 'evpn':
+            nh = addr_full(it, 'nh', 4)
+            v, b = evpn_route(it, 3, 'r0', small=True)
+            close_zero_flag(it)
+            d.update(afi=25, safi=70, nh_text=STR.ip4(nh), nh_bin=octets_bytes(nh.octs, 4), nlri=[{'type': 3, 'value': v}],
+                     nlri_bin=SP.cat(b'\x03', SP.be(SP.blen(b), 1), b))
+        elif fam == 'flow4':
+            a, l = canonical_prefix(it, 'dst', 4, plen=24)
+            port = sym_int(it, 'port', 256, 65535)
+            body = SP.cat(b'\x01', SP.be(l, 1), prefix_enc(a, l, 4), b'\x05\x91', SP.be(port, 2))
+            d.update(afi=1, safi=133, nh_text='', nh_bin=b'', nlri=[{'1': text4(a, l), '5': STR.concat(['=', STR.dec(port)])}],
+                     nlri_decoded=[{1: flow_dotted(a.octs, l), 5: STR.concat(['=', STR.dec(port)])}],
+                     nlri_bin=SP.cat(SP.be(SP.blen(body), 1), body))
         else:
             w = 4 if fam == 'lu4' else 16
             nh = addr_full(it, 'nh', w)
@@ -393,8 +418,8 @@ def units(props):
                      nlri_bin=SP.cat(SP.be(24 + l, 1), label_stack_enc(lb), prefix_enc(a, l, w)))
         return d
 
-    def reach_value(d):
-        v = {'afi_safi': (d['afi'], d['safi']), 'nexthop': d['nh_text'], 'nlri': d['nlri']}
+    def reach_value(d, decoded=False):
+        v = {'afi_safi': (d['afi'], d['safi']), 'nexthop': d['nh_text'], 'nlri': d.get('nlri_decoded', d['nlri']) if decoded else d['nlri']}
         if 'll_text' in d:
             v['linklocal_nexthop'] = d['ll_text']
         return v
@@ -413,7 +438,7 @@ def units(props):
     def mrp_args(it):
         it._mp = reach_case(it)
         return [SBytes.of(reach_body(it._mp)), None]
-    U('MpReachNLRI.parse', MPR + 'parse', mrp_args, lambda it, v, ap: ('ret', reach_value(it._mp)), concrete_loops=True)
+    U('MpReachNLRI.parse', MPR + 'parse', mrp_args, lambda it, v, ap: ('ret', reach_value(it._mp, decoded=True)), concrete_loops=True)
 
     def unreach_case(it):
         d = reach_case(it)
@@ -433,7 +458,8 @@ def units(props):
             d['wd_decoded'] = [{'prefix': r['prefix'], 'label': [524288]}]
             d['wd_bin'] = SP.cat(SP.sl(d['nlri_bin'], 0, 1), b'\x80\x00\x00', SP.sl(d['nlri_bin'], 4, None))
         else:
-            d['wd_value'] = d['wd_decoded'] = d['nlri']
+            d['wd_value'] = d['nlri']
+            d['wd_decoded'] = d.get('nlri_decoded', d['nlri'])
             d['wd_bin'] = d['nlri_bin']
         return d
 
@@ -562,4 +588,126 @@ def units(props):
         return [SBytes.of(evpn_enc(it._mp))]
     U('EVPN.parse', EV + 'EVPN.parse', evp_args,
       lambda it, d: ('ret', [{'type': rt, 'value': v} for rt, (v, b) in zip(*it._mp)]), concrete_loops=True)
+
+    # ---------------- IPv4 flowspec (RFC 8955): prefixes, numeric operators (=, >, <, >=, <= on 1/2/4-octet values)
+    FS = N + 'ipv4_flowspec.IPv4FlowSpec.'
+    OPS = [('=', 1), ('>', 2), ('<', 4), ('>=', 3), ('<=', 5)]
+
+    def dotted(addr_octs, plen):
+        """the flowspec decoder's own text for a prefix: four decimal numbers, the octets beyond ceil(len/8) are 0"""
+        n = octets_of(plen)
+        parts = []
+        for k in range(4):
+            if k:
+                parts.append('.')
+            o = addr_octs[k] if k < n else z3.IntVal(0)
+            o = z3.simplify(o)
+            parts.append(str(o.as_long()) if z3.is_int_value(o) else STR.dec(SNum(o)))
+        return STR.concat(parts + ['/', str(plen)])
+
+    def fsp_c_args(it):
+        a, l = canonical_prefix(it, 'fp', 4)
+        it._mp = (a, l)
+        return [text4(a, l)]
+    U('IPv4FlowSpec.construct_prefix', FS + 'construct_prefix', fsp_c_args,
+      lambda it, p: ('ret', SP.cat(SP.be(it._mp[1], 1), prefix_enc(it._mp[0], it._mp[1], 4))))
+
+    def fsp_p_args(it):
+        a, l = canonical_prefix(it, 'fp', 4)
+        it._mp = (a, l)
+        return [SBytes.of(SP.cat(SP.be(l, 1), prefix_enc(a, l, 4)))]
+    U('IPv4FlowSpec.parse_prefix', FS + 'parse_prefix', fsp_p_args,
+      lambda it, d: ('ret', (dotted(it._mp[0].octs, it._mp[1]), 1 + octets_of(it._mp[1]))))
+
+    def op_terms(it, tag, nmax=2):
+        """1..nmax OR-ed comparison terms: (operator, value, width in octets); the width class is forked"""
+        n = 1 + it.p.choose(nmax, 'n-terms-' + tag)
+        terms = []
+        for i in range(n):
+            op, bits = OPS[it.p.choose(len(OPS), 'op-%s%d' % (tag, i))]
+            w = [1, 2, 4][it.p.choose(3, 'width-%s%d' % (tag, i))]
+            lo = {1: 0, 2: 256, 4: 2 ** 24}[w]              # 3-octet values (2^16 .. 2^24-1) have no RFC 8955 length code
+            v = sym_int(it, 'val_%s%d' % (tag, i), lo, 2 ** (8 * w) - 1)
+            terms.append((op, bits, v, w))
+        return terms
+
+    def op_text(terms):
+        parts = []
+        for i, (op, bits, v, w) in enumerate(terms):
+            if i:
+                parts.append('|')
+            parts += [op, STR.dec(v)]
+        return STR.concat(parts)
+
+    def op_enc(terms):
+        out = []
+        for i, (op, bits, v, w) in enumerate(terms):
+            flag = (0x80 if i == len(terms) - 1 else 0) + {1: 0x00, 2: 0x10, 4: 0x20}[w] + bits
+            out.append(SP.cat(SP.be(flag, 1), SP.be(v, w)))
+        return SP.cat(*out)
+
+    def fso_c_args(it):
+        it._mp = op_terms(it, 'a')
+        return [op_text(it._mp)]
+    U('IPv4FlowSpec.construct_operators', FS + 'construct_operators', fso_c_args, lambda it, d: ('ret', op_enc(it._mp)))
+
+    def fso_p_args(it):
+        it._mp = op_terms(it, 'a')
+        rest = SBytes.fresh('rest')
+        it.p.assume(rest.len <= 4)
+        return [SBytes.of(SP.cat(op_enc(it._mp), rest))]
+
+    def fso_p_expect(it, data):
+        terms = it._mp
+        lst = []
+        for i, (op, bits, v, w) in enumerate(terms):
+            lst.append([{'EOL': 1 if i == len(terms) - 1 else 0, 'AND': 0, 'LEN': w, 'LT': (bits >> 2) & 1, 'GT': (bits >> 1) & 1,
+                         'EQ': bits & 1}, v])
+        return 'ret', (lst, sum(1 + w for (_, _, _, w) in terms) + 1)
+    U('IPv4FlowSpec.parse_operators', FS + 'parse_operators', fso_p_args, fso_p_expect, concrete_loops=True)
+
+    def flow_rule(it):
+        """one flowspec NLRI: destination prefix and/or source prefix, plus 0..2 numeric components"""
+        k = it.p.choose(4, 'rule-shape')
+        comps, enc = {}, []
+        if k in (0, 1, 3):
+            a, l = canonical_prefix(it, 'dst', 4, plen=None if k == 0 else 24)
+            comps['1'] = (text4(a, l), dotted(a.octs, l))
+            enc.append(SP.cat(b'\x01', SP.be(l, 1), prefix_enc(a, l, 4)))
+        if k in (1, 2):
+            a, l = canonical_prefix(it, 'src', 4, plen=16)
+            comps['2'] = (text4(a, l), dotted(a.octs, l))
+            enc.append(SP.cat(b'\x02', SP.be(l, 1), prefix_enc(a, l, 4)))
+        if k in (2, 3):
+            types = [3, 5] if k == 2 else [it.p.choose(9, 'component-type') + 3]
+            for t in sorted(types):
+                terms = op_terms(it, 'c%d' % t, nmax=1)      # several OR-ed terms: the construct/parse_operators units
+                comps[str(t)] = (op_text(terms), op_text(terms))
+                enc.append(SP.cat(SP.be(t, 1), op_enc(terms)))
+        return comps, enc
+
+    # components are emitted in this order by construct_nlri (prefixes, then 3, 4, 5, 6, 7, 8, 10, 11 — RFC 8955 wants type order)
+    EMIT_ORDER = [1, 2, 3, 4, 5, 6, 7, 8, 10, 11]
+
+    def fsn_c_args(it):
+        comps, enc = flow_rule(it)
+        it._mp = (comps, enc)
+        return [{k: v[0] for k, v in comps.items()}]
+
+    def fsn_c_expect(it, data):
+        comps, enc = it._mp
+        keys = sorted(comps, key=lambda x: int(x))
+        for k in keys:
+            if int(k) not in EMIT_ORDER:
+                return 'any', None
+        body = SP.cat(*enc)
+        return 'ret', SP.cat(SP.be(SP.blen(body), 1), body)
+    U('IPv4FlowSpec.construct_nlri', FS + 'construct_nlri', fsn_c_args, fsn_c_expect, max_paths=20000)
+
+    def fsn_p_args(it):
+        comps, enc = flow_rule(it)
+        it._mp = (comps, enc)
+        return [SBytes.of(SP.cat(*enc))]
+    U('IPv4FlowSpec.parse', FS + 'parse', fsn_p_args,
+      lambda it, v: ('ret', {int(k): c[1] for k, c in it._mp[0].items()}), concrete_loops=True)
     return us
